@@ -3,8 +3,11 @@ package filesystem
 // Replay and bounded stand-in harness of /verif for package filesystem. Injected with `go test -overlay`; never written to /repo.
 
 import (
+	"bytes"
+	"encoding/base64"
 	"fmt"
 	"io/fs"
+	"strings"
 	"testing"
 	"testing/fstest"
 )
@@ -30,7 +33,8 @@ func TestVerifBoundedArtifactBytes(t *testing.T) {
 	cfg := "version: 1\nsubject: CN=root\n"
 	n := 0
 	prefixes := []string{"", "x", "xy", "\n", "garbage\n", "-----BEGIN X-----\n", "#HAS", "##"}
-	bodies := []string{"#HASH:", "#HASH:\n", "#HASH:AQID\n", "#HASH:AQID", "#HASH:@@@\n", "#HASH:\n\n", "#HASH:AQIDBA==\n-----BEGIN CERTIFICATE-----\nAAAA\n-----END CERTIFICATE-----\n"}
+	bodies := []string{"#HASH:", "#HASH:\n", "#HASH:AQID\n", "#HASH:AQID", "#HASH:@@@\n", "#HASH:\n\n", "#HASH:AQIDBA==\n-----BEGIN CERTIFICATE-----\nAAAA\n-----END CERTIFICATE-----\n",
+		"#HASH:HAS0\n", "#HASH:SGFzaA==\n", "#HASH:AAAA\n", "#HASH:HHHHAQID\n", "#HASH:#HASH:AQID\n", "#HASH: AQID\n", "#HASH:AQID \n", "#HASH:AQID\r\n"}
 	suffixes := []string{"", "\n", "tail", "#HASH:zz\n"}
 	for _, p := range prefixes {
 		for _, b := range bodies {
@@ -44,6 +48,25 @@ func TestVerifBoundedArtifactBytes(t *testing.T) {
 				}
 				if err != nil || d.NumEntities() != 1 {
 					fmt.Printf("VERIF-BOUNDED: violation Open fails (%v, %d entities) for artifact content %q\n", err, d.NumEntities(), content)
+					return
+				}
+				// the stored hash as the file format defines it (C13/C10/C11): base64 text between the first "#HASH:" and
+				// the end of that line; nothing when there is no such line or the text is not base64
+				var want []byte
+				if i := strings.Index(content, "#HASH:"); i >= 0 {
+					if j := strings.IndexByte(content[i:], '\n'); j >= 0 {
+						if b, err := base64.StdEncoding.DecodeString(content[i+6 : i+j]); err == nil {
+							want = b
+						}
+					}
+				}
+				meta, merr := d.GetMetadata("root")
+				if merr != nil || meta == nil {
+					fmt.Printf("VERIF-BOUNDED: violation no metadata for root (%v) for artifact content %q\n", merr, content)
+					return
+				}
+				if !bytes.Equal(meta.LastConfigHash, want) {
+					fmt.Printf("VERIF-BOUNDED: violation stored hash read back as %x, the file says %x, for artifact content %q\n", meta.LastConfigHash, want, content)
 					return
 				}
 			}
